@@ -965,8 +965,21 @@ func runC05(c *Ctx) {
 		// the suffix texts the extractor tests for (without the leading dot)
 		var suffixTexts []string
 		for _, ci := range core.CallsTo(ext, "strings.HasSuffix") {
-			if t, ok := core.ConstString(ci.Common().Args[1]); ok && len(t) >= 2 {
+			arg := ci.Common().Args[1]
+			if t, ok := core.ConstString(arg); ok && len(t) >= 2 {
 				suffixTexts = append(suffixTexts, t)
+			}
+			// a constant re-sliced from a constant offset: arpaV4Suffix[len("."):]
+			if sl, isSl := arg.(*ssa.Slice); isSl && sl.High == nil {
+				if t, ok := core.ConstString(sl.X); ok {
+					k := int64(0)
+					if sl.Low != nil {
+						k, _ = core.ConstInt(sl.Low)
+					}
+					if k >= 0 && int(k) < len(t) && len(t)-int(k) >= 2 {
+						suffixTexts = append(suffixTexts, t[k:])
+					}
+				}
 			}
 		}
 		var octetStore *ssa.Store
